@@ -128,6 +128,11 @@ var _ merger.TypeURLMap
 //@ requires ctx != nil
 //@ assumes[routing-table] merger.wfTM(ctx.TypeURLMap)
 //@ assumes[schema] forallT(k, string, has(ctx.Schema.Types, k) ==> ctx.Schema.Types[k] != nil)
+// what the recursion writes: the child lists and selection sets of existing steps, list cells (append), new objects -
+// never the insertion point, URL or parent type of an existing step
+//@ modifies-assumed all(QueryPlanStep.Then), all(QueryPlanStep.SelectionSet), elems(string), elems(ast.Selection), elems(*QueryPlanStep), fresh
+// (the steps created below this call come from createQueryPlanSteps, which is proved to give each its own array)
+//@ assumes-post[owns] forallT(p, *QueryPlanStep, typed(p) && fresh(p) && allocated(p) ==> base(p.InsertionPoint) == 0 || fresh(p.InsertionPoint))
 //@ callsite addFieldToNodeQuery requires[same-service] atlast(IsEqual, step) == step && atlast(IsEqual, loc) == loc && atlast(IsEqual, step.URL) == loc @props C01
 //@ callsite addFieldToNodeQuery requires[same-insertion-point] lastresult(IsEqual) && atlast(IsEqual, step) == step && sameslice(lastarg(IsEqual, 0), atlast(IsEqual, step.InsertionPoint)) && sameslice(lastarg(IsEqual, 1), insertionPoint) @props C01
 //@ end
@@ -154,9 +159,14 @@ var _ merger.TypeURLMap
 //@ assume-nonnil-field ast.Field.Definition
 //@ assume-nonnil-field ast.FieldDefinition.Type
 
+// C01: a step owns its insertion point: the path handed in by the caller is extended in place by the recursion
+// (append), so a step that kept the caller's array would see its path overwritten by a sibling
 //@ func createQueryPlanSteps
-//@ props C07
+//@ props C07 C01
+//@ returns steps, err
 //@ requires ctx != nil
+//@ ensures[owns-insertion-point] forallT(p, *QueryPlanStep, typed(p) && fresh(p) && allocated(p) ==> base(p.InsertionPoint) == 0 || fresh(p.InsertionPoint)) @using owns @props C01
+//@ loop 0 invariant[owns] forallT(p, *QueryPlanStep, typed(p) && fresh(p) && allocated(p) ==> base(p.InsertionPoint) == 0 || fresh(p.InsertionPoint)) @using owns
 //@ assumes[routing-table] merger.wfTM(ctx.TypeURLMap)
 //@ assumes[schema] forallT(k, string, has(ctx.Schema.Types, k) ==> ctx.Schema.Types[k] != nil)
 //@ end
@@ -172,6 +182,8 @@ var _ merger.TypeURLMap
 //@ requires ctx != nil
 //@ assumes[routing-table] merger.wfTM(ctx.TypeURLMap)
 //@ assumes[schema] forallT(k, string, has(ctx.Schema.Types, k) ==> ctx.Schema.Types[k] != nil)
+// (routing creates no steps)
+//@ assumes-post[owns] forallT(p, *QueryPlanStep, typed(p) && fresh(p) && allocated(p) ==> base(p.InsertionPoint) == 0 || fresh(p.InsertionPoint))
 //@ end
 
 //@ func filterSelectionSetByLoc
